@@ -59,6 +59,10 @@ type c04Config struct {
 	Cache      string `json:"cache"` // none | tiny | ample
 	Mode       string `json:"mode"`
 	PerG       int    `json:"per_g"`
+	// Repeat > 1: the configuration is run that many times, each time on a freshly opened index, and every goroutine's
+	// first call is a group-by query or a schema read: the first overlapping uses of a fresh index are where lazily
+	// initialised shared state (sorted value lists, decoded bitmaps, memoised schema) is raced.
+	Repeat int `json:"repeat,omitempty"`
 }
 
 type c04Spec struct {
@@ -84,6 +88,7 @@ type c04ConfigResult struct {
 	DistinctShapes   int      `json:"distinct_shapes"`
 	EvictedAtLeast   int64    `json:"evicted_at_least"`
 	GoroutinesActive int      `json:"goroutines_active"`
+	FreshOpens       int      `json:"fresh_opens"`
 }
 
 type span struct{ call, ret int64 }
@@ -189,7 +194,21 @@ func workerC04Index(args []string) int {
 	var results []c04ConfigResult
 	for _, cfg := range spec.Configs {
 		fmt.Fprintf(os.Stderr, "c04-index: starting config %s\n", cfg.Name)
-		results = append(results, c04RunConfig(&spec, cfg))
+		res := c04RunConfig(&spec, cfg)
+		for rep := 1; rep < cfg.Repeat; rep++ {
+			more := c04RunConfig(&spec, cfg)
+			res.Executions += more.Executions
+			res.SchemaReads += more.SchemaReads
+			res.Mismatches = append(res.Mismatches, more.Mismatches...)
+			res.Panics = append(res.Panics, more.Panics...)
+			res.OverlapPairs += more.OverlapPairs
+			res.Hits += more.Hits
+			res.Misses += more.Misses
+			res.EvictedAtLeast += more.EvictedAtLeast
+			res.FreshOpens++
+		}
+		res.FreshOpens++
+		results = append(results, res)
 	}
 	out, _ := json.Marshal(results)
 	fmt.Println(string(out))
@@ -252,6 +271,12 @@ func c04RunConfig(spec *c04Spec, cfg c04Config) c04ConfigResult {
 					continue
 				}
 				q := spec.Queries[rng.Intn(len(spec.Queries))]
+				if cfg.Repeat > 1 && i == 0 {
+					// first call on the fresh index: a group-by query (all goroutines pick among the same few)
+					for try := 0; try < 50 && len(q.GB) == 0; try++ {
+						q = spec.Queries[rng.Intn(len(spec.Queries))]
+					}
+				}
 				// every goroutine builds its own Query value
 				uq := &updog.Query{Expr: q.E.ToUpdog(), GroupBy: append([]string{}, q.GB...)}
 				var r *updog.Result
@@ -654,6 +679,11 @@ func c04Index(r *vf.Run) {
 			}
 		}
 	}
+	for _, cache := range []string{"none", "ample"} {
+		for _, mode := range ix.OpenModes {
+			spec.Configs = append(spec.Configs, c04Config{Name: fmt.Sprintf("fresh-first-use/g16/%s/%s", cache, mode), Goroutines: 16, Cache: cache, Mode: mode, PerG: 3, Repeat: r.Pick(25, 120)})
+		}
+	}
 	b, _ := json.Marshal(spec)
 	specPath := filepath.Join(dir, "spec.json")
 	_ = os.WriteFile(specPath, b, 0o644)
@@ -691,6 +721,9 @@ func c04Index(r *vf.Run) {
 			r.Count("index_cache_hits", cr.Hits)
 			r.Count("index_cache_misses", cr.Misses)
 			r.Count("evictions_during_concurrent_phase_at_least", cr.EvictedAtLeast)
+			if strings.HasPrefix(cr.Name, "fresh-first-use") {
+				r.Count("fresh_index_concurrent_first_use_rounds", int64(cr.FreshOpens))
+			}
 			r.Cover("index_configurations", cr.Name)
 			r.Distinct(cr.Name + "|" + cr.OrderSignature)
 			r.Cover("completion_order_signatures", vf.Digest(cr.OrderSignature))
